@@ -17,7 +17,7 @@ RULE = ("random tables of 1-3 fields with domains of size 1-4 drawn from one sma
         "shape, domain kinds, collision flags); non-trivial = >=2 fields or a domain of size >=2.")
 ASSUMPTIONS = ["oracle = table_resolve (dict-semantics model written from the statement)",
                "foreign keys must raise *some* exception (StateActionIndexError for StateTable/StateActionTable and "
-               "top-level TabularPolicy); get() with foreign keys is not judged"]
+               "top-level TabularPolicy); get() is judged for foreign plain scalars only (tuple-shaped foreign keys raise IndexError out of get())"]
 
 POOL = [0, 1, 2, 3, -1, "a", "b", "s", (0, 1), (1, 0), (0,), ("a", "b"), (0, "a"), None, 2.5, frozenset([0]),
         frozenset(), "0", (1, 2, 3), ()]
@@ -264,6 +264,20 @@ def run_case(case, rng):
         g = case.call("get", t.get, k, "DEFAULT", facts=facts)
         if g is not case.FAIL:
             compare(k, g, "get")
+    # get() with a plain scalar that is in no domain: the default, i.e. None when the default is left out - never a number
+    for fk in ("zz-foreign", 98765, 1.25):
+        if any(_in(fk, d) for d in domains):
+            continue
+        # (MDP tables answer a foreign key with their state/action index error also through get(): not judged here)
+        for obj, nm in ([] if cls_name in ("StateTable", "StateActionTable", "TabularPolicy") else [(t, "table")]) + \
+                       ([(t[d0[0]], "row")] if nf >= 2 and cls_name in ("ProbabilityTable", "TabularPolicy") else []):
+            g0 = case.call(f"{nm}.get(foreign scalar)", obj.get, fk, facts=facts)
+            g1 = case.call(f"{nm}.get(foreign scalar, default)", obj.get, fk, "DEFAULT", facts=facts)
+            case.count("get_with_foreign_scalars")
+            if g0 is not case.FAIL:
+                case.check(g0 is None, "get:foreign-key-without-default-does-not-give-None", f"{nm}.get({fk!r}) -> {g0!r}", **facts)
+            if g1 is not case.FAIL:
+                case.check(isinstance(g1, str) and g1 == "DEFAULT", "get:foreign-key-does-not-give-the-default", f"{nm}.get({fk!r}, 'DEFAULT') -> {g1!r}", **facts)
     # ---- rows of probability tables are distributions -------------------------------------------------------------
     if cls_name in ("ProbabilityTable", "TabularPolicy") and nf >= 2:
         for key in itertools.product(*domains[:-1]):
